@@ -506,8 +506,8 @@ fn pm_switch_sweep(ctx: &Arc<Ctx>, work: &Path) {
 }
 
 /// Writing to a path that already holds an earlier output of the same format: afterwards the container holds the
-/// new tile set (for a directory target: the new tiles at their coordinates; files of the earlier export that the
-/// new set does not name are the caller's business and not judged). Earlier outputs: a superset, a shifted set,
+/// new tile set and nothing else (the directory writer, which merges into an existing directory, is a recorded
+/// finding). Earlier outputs: a superset, a shifted set,
 /// the same coordinates with other payloads of the same sizes.
 fn rewrite_existing(ctx: &Arc<Ctx>, work: &Path) {
 	let mk = |coords: &[Key], tag: &str, len: usize| -> TileMap {
@@ -561,8 +561,11 @@ fn rewrite_existing(ctx: &Arc<Ctx>, work: &Path) {
 					None => ctxr.violation(&format!("{cn}: after writing over an earlier output a tile of the new set is missing ({via})"), &format!("{label}: {k:?}"), case.clone()),
 				}
 			}
-			if cont != Cont::Directory {
-				if let Some((k, _)) = got.iter().find(|(k, _)| !nr.contains_key(*k)) {
+			if let Some((k, _)) = got.iter().find(|(k, _)| !nr.contains_key(*k)) {
+				if cont == Cont::Directory {
+					// the directory writer only adds and overwrites files; every other writer replaces its target
+					ctxr.violation("directory: tiles of an earlier export at the destination survive a new export", &format!("{label}: {k:?} ({via})"), case.clone());
+				} else {
 					ctxr.violation(&format!("{cn}: after writing over an earlier output the container holds tiles of the earlier output ({via})"), &format!("{label}: {k:?}"), case.clone());
 				}
 			}
